@@ -1,6 +1,8 @@
-"""Generator of harness/src/gen/*.rs (deterministic)."""
+"""Generator of harness/src/gen/*.rs (deterministic, regenerated from /repo on every run)."""
 import os
+import re
 
+import oracle as O
 import runner
 
 GEN_DIR = os.path.join(runner.HARNESS_DIR, "src", "gen")
@@ -9,14 +11,205 @@ GEN_DIR = os.path.join(runner.HARNESS_DIR, "src", "gen")
 def write_if_changed(path, content):
     if os.path.exists(path) and open(path).read() == content:
         return False
-    tmp = path + ".tmp"
+    tmp = path + ".tmp%d" % os.getpid()
     with open(tmp, "w") as f:
         f.write(content)
     os.replace(tmp, path)
     return True
 
 
+def rust_u16_array(vals, per_line=16):
+    lines = []
+    for i in range(0, len(vals), per_line):
+        lines.append("    " + ", ".join(str(v) for v in vals[i:i + per_line]) + ",")
+    return "\n".join(lines)
+
+
+# log_m rows supplied to the sparse multiplication tables ---------------------
+def sparse_row_keys(ctx):
+    skew = ctx.table("skew")
+    keys = set(4369 * t for t in range(16))           # subfield GF(16): every factor at work positions < 16
+    keys.update(skew[i] for i in range(0, 64))        # skew factors of small FFTs at small offsets
+    keys.update(skew[i] for i in range(65535 - 40, 65535))  # ... and at the top of the table
+    keys.update([1, 2, 12345, 65534, 65535])
+    return sorted(keys)
+
+
+def gen_tables(ctx):
+    skew = ctx.table("skew")
+    exp = ctx.table("exp")
+    log = ctx.table("log")
+    mul16 = ctx.table("mul16")
+    mul128 = ctx.table("mul128")
+    keys = sparse_row_keys(ctx)
+    out = []
+    out.append("// generated from the tables the REAL initialisers of /repo produce (native dump, hooks off)\n")
+    out.append("use reed_solomon_simd::engine::tables::{ExpLog, LogWalsh, Mul128, Mul16, Multiply128lutT, Skew};\n")
+    out.append("use reed_solomon_simd::verif_hooks::{SparseMode, SparseTable, TableProviders};\n\n")
+    out.append("pub static SKEW: Skew = [\n" + rust_u16_array(list(skew)) + "\n];\n\n")
+    out.append("pub static EXP: [u16; 65536] = [\n" + rust_u16_array(list(exp)) + "\n];\n\n")
+    out.append("pub static LOG: [u16; 65536] = [\n" + rust_u16_array(list(log)) + "\n];\n\n")
+    out.append(f"pub const ROW_KEYS: [u16; {len(keys)}] = [" + ", ".join(map(str, keys)) + "];\n\n")
+    out.append(f"pub static MUL16_ROWS: [(u16, [[u16; 16]; 4]); {len(keys)}] = [\n")
+    for k in keys:
+        base = k * 64
+        rows = ["[" + ", ".join(str(mul16[base + t * 16 + i]) for i in range(16)) + "]" for t in range(4)]
+        out.append(f"    ({k}, [" + ", ".join(rows) + "]),\n")
+    out.append("];\n\n")
+    out.append(f"pub static MUL128_ROWS: [(u16, Multiply128lutT); {len(keys)}] = [\n")
+    for k in keys:
+        raw = mul128[k * 128:(k + 1) * 128]
+        lo = [int.from_bytes(raw[16 * i:16 * i + 16], "little") for i in range(4)]
+        hi = [int.from_bytes(raw[64 + 16 * i:64 + 16 * i + 16], "little") for i in range(4)]
+        out.append(f"    ({k}, Multiply128lutT {{ lo: [" + ", ".join(hex(x) for x in lo) + "], hi: [" + ", ".join(hex(x) for x in hi) + "] }),\n")
+    out.append("];\n\n")
+    out.append("""pub static MUL16: Mul16 = SparseTable::new(&MUL16_ROWS, SparseMode::Search);
+pub static MUL128: Mul128 = SparseTable::new(&MUL128_ROWS, SparseMode::Search);
+/// wildcard tables: every log_m maps to row 0 (index-arithmetic harnesses only)
+pub static MUL16_WILD: Mul16 = SparseTable::new(&MUL16_ROWS, SparseMode::Wildcard);
+pub static MUL128_WILD: Mul128 = SparseTable::new(&MUL128_ROWS, SparseMode::Wildcard);
+
+fn p_skew() -> Box<Skew> {
+    Box::new(SKEW)
+}
+fn p_mul16() -> Box<Mul16> {
+    Box::new(SparseTable::new(&MUL16_ROWS, SparseMode::Search))
+}
+fn p_mul128() -> Box<Mul128> {
+    Box::new(SparseTable::new(&MUL128_ROWS, SparseMode::Search))
+}
+fn p_exp_log() -> ExpLog {
+    ExpLog { exp: Box::new(EXP), log: Box::new(LOG) }
+}
+fn p_log_walsh() -> Box<LogWalsh> {
+    // never read by a harness: eval_poly is replaced by its contract
+    Box::new([0; 65536])
+}
+
+/// install providers so that the crate's LazyLock statics never run the real initialisers
+pub fn install_providers() {
+    reed_solomon_simd::verif_hooks::set_table_providers(TableProviders {
+        exp_log: Some(p_exp_log),
+        log_walsh: Some(p_log_walsh),
+        mul16: Some(p_mul16),
+        mul128: Some(p_mul128),
+        skew: Some(p_skew),
+    });
+}
+""")
+    return "".join(out)
+
+
+SPEC_SIZES = (1, 2, 4, 8, 16)
+
+
+def spec_tuples():
+    """(size, delta) pairs for which the oracle matrices are emitted"""
+    t = []
+    for size in SPEC_SIZES:
+        deltas = set(range(0, 33, size))
+        deltas.update([2 * size, 3 * size, 65536 - size, 65536 - 2 * size])
+        for d in sorted(deltas):
+            if d + size <= 65536 and (d + size <= 48 or d >= 65536 - 2 * size):
+                t.append((size, d))
+    return t
+
+
+def words_literal(c):
+    return "[" + ", ".join(str(w) for w in O.mulc_words(c)) + "]"
+
+
+def gen_spec(ctx):
+    out = ["// generated from the independent oracle (lib/oracle.py): field polynomial + Cantor basis only\n\n"]
+    arms_f, arms_i = [], []
+    for size, delta in spec_tuples():
+        F = O.fft_matrix(size, delta)
+        I = O.mat_inv(F)
+        for nm, M, arms in (("FFT", F, arms_f), ("IFFT", I, arms_i)):
+            name = f"{nm}_{size}_{delta}"
+            out.append(f"static {name}: [[u16; 16]; {size * size}] = [\n")
+            for i in range(size):
+                for k in range(size):
+                    out.append("    " + words_literal(M[i][k]) + ",\n")
+            out.append("];\n")
+            arms.append(f"        ({size}, {delta}) => Some(&{name}),\n")
+    out.append("\npub fn fft_words(size: usize, delta: usize) -> Option<&'static [[u16; 16]]> {\n    match (size, delta) {\n" + "".join(arms_f) + "        _ => None,\n    }\n}\n")
+    out.append("\npub fn ifft_words(size: usize, delta: usize) -> Option<&'static [[u16; 16]]> {\n    match (size, delta) {\n" + "".join(arms_i) + "        _ => None,\n    }\n}\n")
+    out.append("\n/// LOG32[v] = discrete log of label v (v in 1..32); LOG32[0] unused\n")
+    out.append("pub static LOG32: [u16; 32] = [0, " + ", ".join(str(O.llog(v)) for v in range(1, 32)) + "];\n")
+    # multiplication constants g^m for every m that is a log of a GF(16) element (multiples of 4369)
+    out.append("\npub fn mulc_words(log_m: u16) -> Option<&'static [u16; 16]> {\n    match log_m {\n")
+    consts = []
+    for t in range(1, 15):
+        m = 4369 * t
+        consts.append(f"static MULC_{m}: [u16; 16] = {words_literal(O.lexp(m))};\n")
+        out.append(f"        {m} => Some(&MULC_{m}),\n")
+    out.append("        _ => None,\n    }\n}\n")
+    out.extend(consts)
+    return "".join(out)
+
+
+def kat_input(k, salt):
+    import random
+    rnd = random.Random(1000 * k + salt)
+    return [rnd.randrange(1, 65536) for _ in range(k)]
+
+
+def gen_gmat(ctx):
+    """C02 generator matrices (closed form, oracle) + known answers (REAL NoSimd engine, native)"""
+    import families
+    out = ["// generated: G from the closed form of property C02 (oracle); KAT_OUT from the real crate run natively\n\n"]
+    for rate, k, r in families.b_cfg(16):
+        G = O.generator(rate, k, r)
+        out.append(f"pub static G_{rate.upper()}_{k}_{r}: [[u16; 16]; {k * r}] = [\n")
+        for j in range(r):
+            for i in range(k):
+                out.append("    " + words_literal(G[j][i]) + ",\n")
+        out.append("];\n")
+        inp = kat_input(k, r)
+        resp = ctx.native.cmd(f"encode {rate} nosimd {k} {r} 2 " + "".join(bytes([v & 255, v >> 8]).hex() for v in inp))
+        assert resp.startswith("ok "), resp
+        b = bytes.fromhex(resp.split()[1])
+        outv = [b[2 * j] | b[2 * j + 1] << 8 for j in range(r)]
+        out.append(f"pub static KAT_IN_{rate.upper()}_{k}_{r}: [u16; {k}] = {inp};\n")
+        out.append(f"pub static KAT_OUT_{rate.upper()}_{k}_{r}: [u16; {r}] = {outv};\n")
+    return "".join(out)
+
+
+def scan_harnesses():
+    """all proof harnesses declared in harness/src/*.rs and gen/*.rs: [(module path, fn)]"""
+    found = []
+    src = os.path.join(runner.HARNESS_DIR, "src")
+    files = [(f[:-3], os.path.join(src, f)) for f in sorted(os.listdir(src)) if re.match(r"c\d+\w*\.rs$", f)]
+    if os.path.isdir(GEN_DIR):
+        files += [("gen::" + f[:-3], os.path.join(GEN_DIR, f)) for f in sorted(os.listdir(GEN_DIR)) if re.match(r"c\d+\w*\.rs$", f)]
+    for mod, path in files:
+        txt = open(path).read()
+        for m in re.finditer(r"^\s*h!\(\s*(\w+)\s*,", txt, re.M):
+            found.append((mod, m.group(1)))
+        for m in re.finditer(r"cfg_attr\(kani, kani::proof\)\]\s*(?:#\[[^\]]*\]\s*)*(?:pub )?fn (\w+)", txt):
+            found.append((mod, m.group(1)))
+    return found
+
+
+def gen_dispatch(extra=()):
+    hs = scan_harnesses() + list(extra)
+    out = ["// generated: native dispatch table for counterexample replay\n",
+           "pub fn dispatch(name: &str) -> Option<fn()> {\n    match name {\n"]
+    for mod, fn in hs:
+        out.append(f'        "{mod}::{fn}" => Some(crate::{mod}::{fn}),\n')
+    out.append("        _ => None,\n    }\n}\n")
+    return "".join(out)
+
+
 def generate(ctx):
     os.makedirs(GEN_DIR, exist_ok=True)
-    mods = []
-    write_if_changed(os.path.join(GEN_DIR, "mod.rs"), "// generated\n" + "".join(f"pub mod {m};\n" for m in mods))
+    mods = {"tables": gen_tables(ctx), "spec": gen_spec(ctx), "gmat": gen_gmat(ctx)}
+    import families
+    for name in families.FAMILIES:
+        mods[name] = families.render(name)
+        write_if_changed(os.path.join(GEN_DIR, name + ".rs"), mods[name])
+    mods["dispatch"] = gen_dispatch()
+    for name, content in mods.items():
+        write_if_changed(os.path.join(GEN_DIR, name + ".rs"), content)
+    write_if_changed(os.path.join(GEN_DIR, "mod.rs"), "// generated\n" + "".join(f"pub mod {m};\n" for m in sorted(mods)))
